@@ -361,6 +361,8 @@ Proof.
     + rewrite Hf. auto.
     + rewrite Hf1. split; [constructor|right; auto].
   - split; assumption.
+  - split; assumption.
+  - split; assumption.
 Qed.
 
 (* a Load restores exactly the invalid list *)
